@@ -40,9 +40,24 @@ theorem WF_parenAll : ∀ (e : RExpr), RExpr.WF T e → RExpr.WF T e.parenAll
   | .inList n e v vs, h => by
     simp only [RExpr.parenAll, RExpr.WF] at h ⊢; exact ⟨WF_parenAll e h.1, WF_parenAll v h.2.1, WFs_parenAlls vs h.2.2⟩
   | .call f args, h => by simp only [RExpr.parenAll, RExpr.WF] at h ⊢; exact WFs_parenAlls args h
+  | .star, h => h
+  | .countDistinct f a as, h => by
+    simp only [RExpr.parenAll, RExpr.WF] at h ⊢; exact ⟨h.1, WF_parenAll a h.2.1, WFs_parenAlls as h.2.2⟩
+  | .array sp args, h => by simp only [RExpr.parenAll, RExpr.WF] at h ⊢; exact ⟨h.1, WFs_parenAlls args h.2⟩
+  | .extract part e, h => by simp only [RExpr.parenAll, RExpr.WF] at h ⊢; exact WF_parenAll e h
+  | .tuple a b more, h => by
+    simp only [RExpr.parenAll, RExpr.WF] at h ⊢; exact ⟨WF_parenAll a h.1, WF_parenAll b h.2.1, WFs_parenAlls more h.2.2⟩
+  | .case c r more els, h => by
+    simp only [RExpr.parenAll, RExpr.WF] at h ⊢
+    exact ⟨WF_parenAll c h.1, WF_parenAll r h.2.1, WFClauses_parenAll more h.2.2.1, WF_parenAll els h.2.2.2⟩
 theorem WFs_parenAlls : ∀ (es : List RExpr), RExpr.WFs T es → RExpr.WFs T (RExpr.parenAlls es)
   | [], h => h
   | e :: es, h => by simp only [RExpr.parenAlls, RExpr.WFs] at h ⊢; exact ⟨WF_parenAll e h.1, WFs_parenAlls es h.2⟩
+theorem WFClauses_parenAll : ∀ (cs : List (RExpr × RExpr)), RExpr.WFClauses T cs → RExpr.WFClauses T (RExpr.parenAllClauses cs)
+  | [], h => h
+  | (c, r) :: cs, h => by
+    simp only [RExpr.parenAllClauses, RExpr.WFClauses] at h ⊢
+    exact ⟨WF_parenAll c h.1, WF_parenAll r h.2.1, WFClauses_parenAll cs h.2.2⟩
 end
 
 mutual
@@ -59,9 +74,23 @@ theorem embed_parenAll : ∀ (e : RExpr), e.parenAll.embed = e.embed
   | .inList n e v vs => by
     simp only [RExpr.parenAll, RExpr.embed, embed_parenAll e, embed_parenAll v, embeds_parenAlls vs]
   | .call f args => by simp only [RExpr.parenAll, RExpr.embed, embeds_parenAlls args]
+  | .star => rfl
+  | .countDistinct f a as => by simp only [RExpr.parenAll, RExpr.embed, embed_parenAll a, embeds_parenAlls as]
+  | .array sp args => by simp only [RExpr.parenAll, RExpr.embed, embeds_parenAlls args]
+  | .extract part e => by simp only [RExpr.parenAll, RExpr.embed, embed_parenAll e]
+  | .tuple a b more => by
+    simp only [RExpr.parenAll, RExpr.embed, embed_parenAll a, embed_parenAll b, embeds_parenAlls more]
+  | .case c r more els => by
+    simp only [RExpr.parenAll, RExpr.embed, embed_parenAll c, embed_parenAll r, embedClauses_parenAll more,
+      embed_parenAll els]
 theorem embeds_parenAlls : ∀ (es : List RExpr), RExpr.embeds (RExpr.parenAlls es) = RExpr.embeds es
   | [] => rfl
   | e :: es => by simp only [RExpr.parenAlls, RExpr.embeds, embed_parenAll e, embeds_parenAlls es]
+theorem embedClauses_parenAll : ∀ (cs : List (RExpr × RExpr)),
+    RExpr.embedClauses (RExpr.parenAllClauses cs) = RExpr.embedClauses cs
+  | [] => rfl
+  | (c, r) :: cs => by
+    simp only [RExpr.parenAllClauses, RExpr.embedClauses, embed_parenAll c, embed_parenAll r, embedClauses_parenAll cs]
 end
 
 /-- top level: the printed expression followed by a stopping state -/
